@@ -1,8 +1,11 @@
 SPECIFICATION Spec
 CONSTANTS
   MaxLeaves = 2
+  MaxLeaves2 = 2
+  Mod = 4
+  Rem = 0
   Typings = {"O", "I", "M"}
-  Tops = {"ret1"}
+  Tops = {"ret1", "ret2", "assign", "aug", "unpack"}
   Dump = FALSE
 INVARIANT AtMostOnce
 INVARIANT StopsAtRaise
